@@ -81,13 +81,13 @@ inline int guarded(const std::function<int()>& body)
             }
             abort();
         });
-        // watchdog: work units are far shorter than a minute; if the process is still busy a minute after the tier's
+        // watchdog: work units are far shorter than a minute; if the process is still busy long (max(240 s, deadline)) after the tier's
         // hard deadline, a call into the code under test does not return (or the machine is hopelessly overloaded).
         // Violations found so far stand (exit 1); otherwise this is reported as a harness error, never as a finding.
         std::thread([] {
             for (;;) {
                 sleep(1);
-                if (vx::ctx().deadline_s > 0 && vx::elapsed() > vx::ctx().deadline_s + 60) {
+                if (vx::ctx().deadline_s > 0 && vx::elapsed() > vx::ctx().deadline_s + std::max(240.0, vx::ctx().deadline_s)) { // generous: an overloaded machine must not turn into an error
                     auto& E = vx::ev();
                     Shared* s = shared();
                     if (E.states.load() == 0) { E.states = s->states.load(); E.transitions = s->transitions.load(); E.traces_validated = s->transitions.load(); }
@@ -95,7 +95,7 @@ inline int guarded(const std::function<int()>& body)
                     if (E.rule.empty()) E.rule = "run cut by the watchdog; see the check's source for the enumeration rule";
                     if (E.samples.empty()) E.sample("(run cut by the watchdog)");
                     int v = vx::rep().violations;
-                    printf("%s property=%s a work unit did not return within 60 s after the deadline (violations so far: %d)\n", v ? "WATCHDOG" : "HARNESS-ERROR", vx::ctx().id.c_str(), v);
+                    printf("%s property=%s a work unit did not return long after the deadline (grace max(240 s, deadline)) (violations so far: %d)\n", v ? "WATCHDOG" : "HARNESS-ERROR", vx::ctx().id.c_str(), v);
                     vx::write_evidence();
                     fflush(stdout);
                     _exit(v ? 1 : 2);
